@@ -903,9 +903,13 @@ def whfast512_case(draw, tier="quick"):
     ns = draw(st.sampled_from([1, 1, 2, 4]))
     regime = draw(st.sampled_from(["R1", "R2"]))
     npl = draw(st.integers(2, {1: 8, 2: 4, 4: 2}[ns]))
-    systems = [draw(S.hierarchical_system(nmin=npl + 1, nmax=npl + 1, G=1.0,
+    # the systems integrated in parallel are independent: equal or different central masses
+    stars = [draw(st.sampled_from([1.0, 0.5, 2.0, 1.3]))] * ns
+    if ns > 1 and draw(st.booleans()):
+        stars = [draw(st.sampled_from([1.0, 0.5, 2.0, 1.3])) for _ in range(ns)]
+    systems = [draw(S.hierarchical_system(nmin=npl + 1, nmax=npl + 1, G=1.0, star_mass=stars[i],
                                           mass_lo=1e-8 if regime == "R1" else 3e-4,
-                                          mass_hi=1e-7 if regime == "R1" else 1e-3)) for _ in range(ns)]
+                                          mass_hi=1e-7 if regime == "R1" else 1e-3)) for i in range(ns)]
     return {"N_systems": ns, "regime": regime, "systems": systems, "norb": draw(st.sampled_from([2, 3])),
             "gr": 0}
 
@@ -1092,9 +1096,9 @@ def run_trace_peri(case, ctx):
 
 def subs(tier):
     return [
-        Sub("order", run_order, strategy=order_case(tier), quick=400, thorough=24000, shards_quick=16, shards_thorough=16),
+        Sub("order", run_order, strategy=order_case(tier), quick=360, thorough=24000, shards_quick=16, shards_thorough=16),
         Sub("lattice", run_order, cases=lattice_cases, quick=0, thorough=0, shards_quick=16, shards_thorough=16),
-        Sub("adaptive", run_adaptive, strategy=adaptive_case(tier), quick=160, thorough=6400, shards_quick=8, shards_thorough=16),
+        Sub("adaptive", run_adaptive, strategy=adaptive_case(tier), quick=128, thorough=6400, shards_quick=8, shards_thorough=16),
         Sub("ode", run_ode, strategy=ode_case(tier), quick=48, thorough=1600, shards_quick=8, shards_thorough=16),
         Sub("sei", run_sei, strategy=sei_case(tier), quick=160, thorough=3200, shards_quick=4, shards_thorough=8),
         Sub("trace_peri", run_trace_peri, strategy=trace_peri_case(tier), quick=120, thorough=4800, shards_quick=4,
